@@ -2655,6 +2655,8 @@ def reshape(array: Array, newshape: int | Sequence[int],
 
     if order.upper() not in ["F", "C"]:
         raise ValueError("order must be one of F or C")
+    # lowering and code generation compare with "C" / "F"
+    order = cast("OrderCF", order.upper())
 
     newshape_explicit: list[ShapeComponent] = []
 
